@@ -178,6 +178,10 @@ type evmInput struct {
 	Value string     `json:"value"` // tx value
 	Body  []evmInstr `json:"body,omitempty"`
 	P     *evmPCall  `json:"p,omitempty"` // direct EOA -> precompile call
+	// position of the transaction in its block: logs emitted by earlier transactions of the block and the
+	// transaction index (the transient counters TxConfig is built from); zero = first transaction
+	PriorLogs int `json:"prior_logs,omitempty"`
+	TxIndex   int `json:"tx_index,omitempty"`
 }
 
 func bigOf(s string) *big.Int {
@@ -193,6 +197,9 @@ func bigOf(s string) *big.Int {
 
 // ---------------------------------------------------------------- environment
 type evmEnv struct {
+	lastLogs []*evmtypes.Log // logs of the response of the last transaction run without a tracer
+	logBase  uint64         // block log counter and tx index before it
+	txIndex  uint64
 	*Env
 	valAddr sdk.ValAddress
 	valStr  string
@@ -346,6 +353,8 @@ type evmObs struct {
 	Grants   []string   `json:"grants"`   // remaining limit of O's delegate/undelegate grant per grantee "g:kind:limit"
 	Alive    []int      `json:"alive"`    // C1..C3 and the six CREATE addresses: 0 no auth account, 1 account without code, 2 with code
 	Nonce    []int      `json:"nonce"`    // CREATEs made by C1..C3 (account nonce - 1)
+	Logs     []string   `json:"logs"`     // the logs of the transaction response, in order: the emitting actor
+	LogMeta  string     `json:"log_meta,omitempty"` // what is wrong with log / tx indices, block log counter (empty = consistent)
 }
 
 func (e *evmEnv) pendingReward(a int) (out *big.Int) {
@@ -368,7 +377,35 @@ func (e *evmEnv) pendingReward(a int) (out *big.Int) {
 }
 
 func (e *evmEnv) observe(ok bool, errStr string, supply0 *big.Int, slots map[[2]uint64]bool) evmObs {
-	o := evmObs{OK: ok, Err: errStr}
+	o := evmObs{OK: ok, Err: errStr, Logs: []string{}}
+	{
+		// the logs of the response: who emitted them, and the bookkeeping around them (log index = block log counter
+		// + position, transaction index, the block's counters after the transaction)
+		byAddr := map[common.Address]int{}
+		for a := 0; a < evmNActors; a++ {
+			byAddr[evmAddr[a]] = a
+		}
+		meta := []string{}
+		for i, l := range e.lastLogs {
+			name := "?" + l.Address
+			if a, ok := byAddr[common.HexToAddress(l.Address)]; ok {
+				name = evmActorName[a]
+			}
+			o.Logs = append(o.Logs, name)
+			if l.Index != e.logBase+uint64(i) {
+				meta = append(meta, fmt.Sprintf("log %d has index %d, block log counter before the transaction %d", i, l.Index, e.logBase))
+			}
+			if l.TxIndex != e.txIndex {
+				meta = append(meta, fmt.Sprintf("log %d has transaction index %d, not %d", i, l.TxIndex, e.txIndex))
+			}
+		}
+		if e.lastLogs != nil || ok {
+			if got := e.App.EvmKeeper.GetLogSizeTransient(e.Ctx); ok && got != e.logBase+uint64(len(e.lastLogs)) {
+				meta = append(meta, fmt.Sprintf("block log counter %d after %d + %d logs", got, e.logBase, len(e.lastLogs)))
+			}
+		}
+		o.LogMeta = strings.Join(meta, "; ")
+	}
 	for a := 0; a < evmNActors; a++ {
 		o.Bal = append(o.Bal, e.App.BankKeeper.GetBalance(e.Ctx, accOf(a), utils.BaseDenom).Amount.String())
 	}
@@ -643,10 +680,12 @@ func (e *evmEnv) run(tx *ethtypes.Transaction, tr *treeTracer) (ok bool, errStr 
 	// as the ante handler does: the transaction starts with a fresh (infinite) gas meter
 	e.Ctx = e.Ctx.WithGasMeter(sdk.NewInfiniteGasMeter())
 	if tr == nil {
+		e.lastLogs = nil
 		res, err := k.ApplyTransaction(e.Ctx, tx)
 		if err != nil {
 			return false, "error: " + err.Error()
 		}
+		e.lastLogs = res.Logs
 		return !res.Failed(), res.VmError
 	}
 	cfg, err := k.EVMConfig(e.Ctx, sdk.ConsAddress(e.Ctx.BlockHeader().ProposerAddress), k.ChainID())
@@ -846,8 +885,8 @@ func (o evmObs) coq() string {
 	for _, a := range o.Nonce {
 		nc = append(nc, coqZ(big.NewInt(int64(a))))
 	}
-	return fmt.Sprintf("(mkeobs %s %s %s %s %s %s %s %s %s)", coqBool(o.OK), coqStrs(o.Bal), coqZ(bigOf(o.Supply)),
-		coqStrs(o.Deleg), coqStrs(o.Unbond), coqList(ws), coqList(st), coqList(al), coqList(nc))
+	return fmt.Sprintf("(mkeobs %s %s %s %s %s %s %s %s %s %s)", coqBool(o.OK), coqStrs(o.Bal), coqZ(bigOf(o.Supply)),
+		coqStrs(o.Deleg), coqStrs(o.Unbond), coqList(ws), coqList(st), coqList(al), coqList(nc), coqZ(big.NewInt(int64(len(o.Logs)))))
 }
 
 func evmOrder() string {
@@ -944,6 +983,9 @@ func evmRunCase(id string, in evmInput, prop string) Case {
 		if err := e.setup(in.Setup); err != nil {
 			return nil, nil, err
 		}
+		e.logBase, e.txIndex = uint64(in.PriorLogs), uint64(in.TxIndex)
+		e.App.EvmKeeper.SetLogSizeTransient(e.Ctx, e.logBase)
+		e.App.EvmKeeper.SetTxIndexTransient(e.Ctx, e.txIndex)
 		return e, e.App.BankKeeper.GetSupply(e.Ctx, utils.BaseDenom).Amount.BigInt(), nil
 	}
 	kb, _ := json.Marshal(in)
@@ -986,6 +1028,9 @@ func evmRunCase(id string, in evmInput, prop string) Case {
 	}
 	// ---- C05: a reverted frame leaves no trace (metamorphic: erase the failed frames)
 	if prop == "C05" || prop == "all" {
+		if obs.LogMeta != "" {
+			msgs = append(msgs, "C05: the logs of the transaction are not those of its surviving frames in order: "+obs.LogMeta)
+		}
 		if !ok {
 			if d := evmDiff(pre, obs, false); d != "" {
 				msgs = append(msgs, "C05: the transaction failed but state changed: "+d)
@@ -1019,6 +1064,7 @@ func evmRunCase(id string, in evmInput, prop string) Case {
 				o4.Err = nerr.Error()
 			}
 			res.Native = &o4
+			o4.Logs = obs.Logs // a native message emits no EVM log: the comparison is about Cosmos state
 			if o4.OK != obs.OK {
 				msgs = append(msgs, fmt.Sprintf("C16: precompile call ok=%v but native message ok=%v (%s | %s)", obs.OK, o4.OK, obs.Err, o4.Err))
 			} else if d := evmDiff(o4, obs, true); d != "" {
@@ -1097,6 +1143,9 @@ func evmDiff(want, got evmObs, withOK bool) string {
 	}
 	if fmt.Sprint(want.Grants) != fmt.Sprint(got.Grants) {
 		d = append(d, fmt.Sprintf("grants %v vs %v", want.Grants, got.Grants))
+	}
+	if fmt.Sprint(want.Logs) != fmt.Sprint(got.Logs) {
+		d = append(d, fmt.Sprintf("logs of the transaction (emitters in order) %v vs %v", want.Logs, got.Logs))
 	}
 	return strings.Join(d, ", ")
 }
@@ -1586,6 +1635,14 @@ func evmGenBody0(r *Rng, self int, depth int, s evmSetup) []evmInstr {
 	return body
 }
 
+// evmGenBlockPos: the transaction is not the first of its block in 40% of the cases
+func evmGenBlockPos(r *Rng, in *evmInput) {
+	if r.Chance(40) {
+		in.PriorLogs = 1 + r.Intn(7)
+		in.TxIndex = 1 + r.Intn(3)
+	}
+}
+
 func evmGen(r *Rng) evmInput {
 	s := evmSetup{Bal: make([]string, 5), Deleg: make([]string, 5), Withdraw: make([]int, 5)}
 	for a := 0; a < 5; a++ {
@@ -1646,6 +1703,7 @@ func evmGen(r *Rng) evmInput {
 		evmRecv = ""
 		evmSdPct, evmCrPct = 4, 2
 	}
+	evmGenBlockPos(r, &in)
 	return in
 }
 
